@@ -34,7 +34,7 @@ RULE = (
     "success with finite velocity or a clean runaway. Distinct by canonical JSON of the history."
 )
 BUDGET = {
-    "quick": {"cases": 48, "shrink": False, "dedupe": True, "time_cap_s": 900, "max_discard": 0.5},
+    "quick": {"cases": 32, "shrink": False, "dedupe": True, "time_cap_s": 900, "max_discard": 0.5},
     "thorough": {"cases": 480, "shrink": False, "dedupe": True, "time_cap_s": 6 * 3600,
                  "max_discard": 0.5},
 }
@@ -89,7 +89,7 @@ def st_point(draw):
     if fam == "Z2x2":
         # delta spread: small delta -> slow deflagrations, large -> runaways
         return draw(zp.st_z2x2(delta_range=(0.03, 0.16)))
-    return draw(zp.st_cubic1(delta_range=(0.05, 0.6)))
+    return draw(zp.st_cubic1(delta_range=(0.05, 0.6), min_alpha=1e-3))
 
 
 @st.composite
